@@ -123,8 +123,11 @@ class GCPMapping:
         return (
             "odc.geo._gcp.GCPMapping",
             str(self._crs),
-            self._wld,
-            self._pix,
+            # not arrays: dask does not normalize what we return, arrays end up
+            # as their (rounded, possibly abbreviated) text representation
+            self._wld.shape,
+            self._wld.tobytes(),
+            self._pix.tobytes(),
         )
 
     @staticmethod
